@@ -1325,7 +1325,8 @@ static void DecodePar(Word Index) {
                 DAsmCode[0] += pOrder->Code + h;
             }
         } else {
-            if (ErrCode > 0) {
+            /* (tErrorNum)-1 = "already reported"; the enum may be unsigned */
+            if (ErrCode != (tErrorNum)-1) {
                 PrError();
             }
             CodeLen = 0;
